@@ -496,6 +496,7 @@ class Robust:
         out = []
         A = self.add
         self.labels = {}
+        self.tier = tier
         # ---------- every seed as it is (all must succeed: the judge checks that a handful do) ----------
         yang = [(nm, tx) for nm, tx in repo_seed_modules()] + [("s%d" % i, tx) for i, tx in enumerate(YANG_SEEDS)]
         ypool = [tx for _, tx in yang]
@@ -548,6 +549,42 @@ class Robust:
                 A(out, "block-pattern", L("pattern", hexs(pat), hexs(b"a")))
             A(out, "block-modpattern", L("yang", hexs(b"module p {namespace urn:p; prefix p; leaf l {type string {pattern " +
                                                      yang_dq(b"\\p{Is" + bn + b"}*") + b";}}}")))
+
+        # ---------- trees with degenerate but legal content built through the API (deterministic) ----------
+        def hv(v):
+            return "~" if v is None else hexs(v)
+        anyvals = [None, b"", b"text", b"<a xmlns=\"urn:x\">1</a>", b"{\"x:a\":1}", b"[1,2]", b"\xc3"]
+        for nm in (b"any", b"axml"):
+            for vt in range(5):
+                for v in (anyvals if vt < 4 else [None]):      # a LYB chunk is trusted input: only the missing value
+                    for opts in (0, 0x100):
+                        A(out, "api-any", L("api", "any", hexs(nm), vt, hv(v), opts))
+        for nm in (b"any", b"axml"):
+            for vt, v in ((1, b"text"), (0, None), (1, b"<a xmlns=\"urn:x\">1</a>"), (3, b"{\"x:a\":1}"), (2, b"<a xmlns=\"urn:x\"/>")):
+                for mode in (0, 1):
+                    for vt2 in range(5):
+                        A(out, "api-anycopy", L("api", "anycopy", hexs(nm), vt, hv(v), mode, vt2))
+        for fm in ("j", "x"):
+            for nm in (b"x", b"", None, b"a b", b"x:y"):
+                for v in (None, b"", b"v", b"<&\"'"):
+                    for pf in (None, b"", b"p"):
+                        for md in (None, b"", b"rb", b"urn:rb", b"nomod"):
+                            A(out, "api-opaq", L("api", "opaq", fm, hv(nm), hv(v), hv(pf), hv(md)))
+        for leaf, vals in VALUE_SEEDS.items():
+            for v in list(vals) + [None, b""]:
+                for opts in (0, 0x08, 0x02, 0x0a):             # lexical, LYD_NEW_VAL_CANON, STORE_ONLY, both
+                    A(out, "api-term", L("api", "term", hexs(leaf.encode()), hv(v), opts))
+        for nm in (b"yang:insert", b"yang:operation", b"yang:value", b"ietf-yang-metadata:x", b"rb:nope", b"", b"nomod:a", b"insert"):
+            for v in (None, b"", b"first", b"x", b"replace"):
+                A(out, "api-meta", L("api", "meta", hexs(nm), hv(v)))
+        for pth in (b"/rb:top/pres", b"/rb:top/item[id='1']", b"/rb:top/item[id='1']/inner", b"/rb:top/tag", b"/rb:top/any", b"/rb:top/axml",
+                    b"/rb:top/x3", b"/rb:top/name", b"/rb:top/pair[a=''][b='1']", b"/rb:top/tag[.='']", b"/rb:top/item[id='1']/reset",
+                    b"/rb:top/item[id='1']/changed", b"/rb:top/state", b"/rb:top/opt", b"/rb:top/count"):
+            for v in (None, b"", b"v", b"1"):
+                A(out, "api-path", L("api", "path", hexs(pth), hv(v)))
+        for k1 in (b"", b"k", b"'\"", b"a b"):
+            for k2 in (b"", b"1", b"x", b"-128"):
+                A(out, "api-list", L("api", "list", hexs(k1), hexs(k2)))
 
         # ---------- truncation at every position of small seeds ----------
         small = [("yang", YANG_SEEDS[1]), ("yin", YIN_SEEDS[0][:700]), ("x", XML_SEEDS[0][:300]), ("x", XML_SEEDS[2]), ("j", JSON_SEEDS[1]),
@@ -756,13 +793,13 @@ class Robust:
                 what = entry + ":ext-mount-point"
         return "post:%s:%s" % (first, what)
 
-    def asan_tag(self, line):
+    def asan_tag(self, line, confirm_timeout=False):
         """second opinion for a failure the release build cannot name (signal without report, strings left in the
         dictionary): the same case alone on the ASan+UBSan build; returns the tag derived from its report, or None"""
         if line in self.second:
             return self.second[line]
         tag = None
-        if len(self.second) < 80:
+        if len(self.second) < (2000 if getattr(self, "tier", "quick") == "thorough" else 80):
             try:
                 exe = vlib.build_driver("t_robust", "asan")
                 env = dict(os.environ)
@@ -772,6 +809,10 @@ class Robust:
                 so = p.stdout.decode("latin-1")
                 o2 = so.strip() if so.endswith("\n") and so.strip() else "CRASH(%d)" % p.returncode
                 t2 = self.classify(line, o2, p.stderr.decode("latin-1"), second=True)
+                if confirm_timeout:
+                    ok = p.returncode == 0 and not o2.startswith(("TIMEOUT", "CRASH"))
+                    self.second[line] = "not-reproduced" if ok else None
+                    return self.second[line]
                 if t2 and t2.split(":")[0] in ("asan", "ubsan", "leak", "uninit", "assert", "stack-overflow"):
                     tag = t2
             except (OSError, subprocess.SubprocessError, vlib.BuildError):
@@ -785,6 +826,14 @@ class Robust:
             tag = self.classify(line, out, err)
             if tag.startswith("crash:") or tag.startswith("post:dict-strings-left:"):
                 tag = self.asan_tag(line) or tag
+            elif tag.startswith("timeout:"):
+                # the CPU limit of a case is confirmed by running it alone (on the slower ASan build): a limit that was hit
+                # only inside a long shard (machine under memory pressure: reclaim time is charged to the process) and not
+                # by the input itself is not attributed to the input
+                t2 = self.asan_tag(line, confirm_timeout=True)
+                if t2 == "not-reproduced":
+                    self.unconfirmed = getattr(self, "unconfirmed", 0) + 1
+                    return None
             # a stack overflow found on the release build carries no function name: match it with the listed finding of
             # the same input shape
             if tag.endswith(":?") and tag.startswith("stack-overflow:"):
